@@ -743,8 +743,12 @@ func persistentWriters(p *core.Prog, m *ssa.Function, seen map[*ssa.Function]boo
 // registered through the exported Store method named setter (they load the
 // field that setter stores into and make a dynamic call).
 func fanoutFuncs(p *core.Prog, rel, setter string) map[*ssa.Function]bool {
+	return fanoutFuncsOf(p, rel, "Store", setter)
+}
+
+func fanoutFuncsOf(p *core.Prog, rel, tname, setter string) map[*ssa.Function]bool {
 	out := map[*ssa.Function]bool{}
-	m := methodNamed(p, rel, "Store", setter)
+	m := methodNamed(p, rel, tname, setter)
 	if m == nil {
 		return out
 	}
